@@ -376,6 +376,9 @@ func Discharge(pre *Pre, fgs []*FuncGen, filter func(*Obligation) bool, timeoutM
 				b.WriteString(oblScript(o, false))
 			}
 			full := pre.For(b.String()) + b.String()
+			if len(jb.obls) > 0 && jb.obls[0].Kind == "cover" {
+				full = pre.For(jb.fg.ScriptVia(-1, -1)+b.String()) + b.String()
+			}
 			b.Reset()
 			b.WriteString(full)
 			start := time.Now()
@@ -425,7 +428,12 @@ func Discharge(pre *Pre, fgs []*FuncGen, filter func(*Obligation) bool, timeoutM
 				via = -1
 			}
 			script := fg.ScriptVia(blk, via) + oblScript(o, true)
-			script = pre.For(script) + script
+			if o.Kind == "cover" {
+				// a vacuity cover is judged against every axiom section that any obligation of the function can see
+				script = pre.For(fg.ScriptVia(-1, -1)+script) + script
+			} else {
+				script = pre.For(script) + script
+			}
 			if d := os.Getenv("GOVC_KEEP"); d != "" {
 				os.MkdirAll(d, 0o755)
 				os.WriteFile(filepath.Join(d, strings.NewReplacer("/", "_", "#", "_", "@", "_").Replace(o.Name)+".smt2"), []byte(script), 0o644)
@@ -521,8 +529,8 @@ func raceSolvers(script string, o *Obligation, timeoutMs int, first *Result, con
 		raw string
 		sec float64
 	}
-	if o.Kind == "cover" && timeoutMs > 10000 {
-		timeoutMs = 10000 // a vacuity cover asks every solver; none of them gets longer than this
+	if o.Kind == "cover" && timeoutMs > 4000 {
+		timeoutMs = 4000 // a vacuity cover asks every solver; none of them gets longer than this
 	}
 	ctx, cancel := context.WithTimeout(context.Background(), time.Duration(timeoutMs+5000)*time.Millisecond)
 	defer cancel()
